@@ -11,7 +11,7 @@ Record icase := mkIC {
   ic_ms : option ms;                       (* None: key-only output (Inner::PublicKey), key = ic_key *)
   ic_key : bytes;
   ic_items : list bytes;                   (* items fed to the evaluator, first = bottom *)
-  ic_lock : N; ic_seq : N;
+  ic_lock : N; ic_seq : N; ic_txv : N;
   ic_kb : list (N * bytes);                (* key index -> bytes pushed in the script *)
   ic_kh : list (N * bytes);                (* key index -> hash160 of those bytes *)
   ic_sig : list (bytes * bytes);           (* pairs accepted by the implementation's verify_sig *)
@@ -33,7 +33,7 @@ Fixpoint lookH (l : list (ihk * (bytes * bytes))) (k : ihk) (inp : bytes) : byte
   end.
 
 Definition env_of (c : icase) : env :=
-  mkEnv SvBase (ic_lock c) (ic_seq c) 2
+  mkEnv SvBase (ic_lock c) (ic_seq c) (ic_txv c)
         (fun k s => existsb (fun p => bytes_eqb (fst p) k && bytes_eqb (snd p) s) (ic_sig c))
         (fun _ => true)
         (lookH (ic_hash c) KSha256) (lookH (ic_hash c) KHash256)
